@@ -135,7 +135,7 @@ def random_case(rng):
 
 def run(out):
     rng = random.Random(out.seed)
-    n = 2000 if out.tier == 'quick' else 30000
+    n = 2000 if out.tier == 'quick' else 300000
     cases = [[0], [1, 0], [2, 0, 0], [1, 1, 5, 1], [2, 2, 0, 0, 0, 0, 2, 0, 0, 0, 0], [2, 3, 5, 0, 0, 1, 3, 0, 2, 5, 0, 10, 1]]
     cases += [random_case(rng) for _ in range(n)]
     for tag, rec in core.pmap(job, chunk_jobs(cases, 'merge', COMP_MERGE)):
